@@ -1041,3 +1041,25 @@ pub fn ctl_smallest<S: ObservableExt<u8, Infallible>>(s: S) -> impl ObservableEx
   let pick = |m: Option<u8>, v: u8| match m { Some(m) if m > v => Some(m), _ => Some(v) };
   s.scan_initial(None, pick as fn(Option<u8>, u8) -> Option<u8>).last().map(|v| v.unwrap())
 }
+
+// ---------------------------------------------------------------- C04.M7
+/// combine_latest that combines before it stores: the side that just emitted contributes its previous value
+pub struct StaleCombine<O, A, B, F> { observer: Option<O>, a: Option<A>, b: Option<B>, f: F }
+pub enum StaleItem<A, B> { ItemA(A), ItemB(B) }
+impl<O, A, B, F, Out, Err> Observer<StaleItem<A, B>, Err> for MutRc<StaleCombine<O, A, B, F>>
+where O: Observer<Out, Err>, F: FnMut(A, B) -> Out, A: Clone, B: Clone {
+  fn next(&mut self, value: StaleItem<A, B>) {
+    let mut inner = self.rc_deref_mut();
+    let StaleCombine { observer, a, b, f } = &mut *inner;
+    if let (Some(o), Some(x), Some(y)) = (observer.as_mut(), a.clone(), b.clone()) {
+      o.next(f(x, y));
+    }
+    match value {
+      StaleItem::ItemA(v) => *a = Some(v),
+      StaleItem::ItemB(v) => *b = Some(v),
+    }
+  }
+  fn error(self, err: Err) { if let Some(o) = self.rc_deref_mut().observer.take() { o.error(err) } }
+  fn complete(self) { if let Some(o) = self.rc_deref_mut().observer.take() { o.complete() } }
+  fn is_finished(&self) -> bool { self.rc_deref().observer.as_ref().map_or(true, |o| o.is_finished()) }
+}
